@@ -2,6 +2,7 @@ package rules
 
 import (
 	"fmt"
+	"go/token"
 	"go/types"
 	"strings"
 
@@ -379,6 +380,7 @@ func (c *Ctx) RuleErr() (drop, handle *Result) {
 				tmn bool
 			}
 			var all []tst
+			var sentinelTests []condBranch
 			for _, a := range aliases {
 				for _, r := range referrers(a) {
 					bin, ok := r.(*ssa.BinOp)
@@ -418,8 +420,71 @@ func (c *Ctx) RuleErr() (drop, handle *Result) {
 					}
 				}
 			}
-			tests = len(all)
-			okTests := 0
+			// err == ErrSomething / err != ErrSomething: a classification of an error that may still be nil
+			// or of another kind on the other side; that side must reach a real test of the error (or fail)
+			for _, a := range aliases {
+				for _, r := range referrers(a) {
+					bin, ok := r.(*ssa.BinOp)
+					if !ok || !(bin.Op == token.EQL || bin.Op == token.NEQ) {
+						continue
+					}
+					if _, _, isNil := nilTest(bin); isNil {
+						continue
+					}
+					other := bin.Y
+					if other == a {
+						other = bin.X
+					}
+					if !isErrorType(other.Type()) {
+						continue
+					}
+					for _, br := range condBranches(bin) {
+						testIfs[br.iff] = true
+						// the side on which the error is NOT the sentinel
+						neg := br.neg
+						if bin.Op == token.NEQ {
+							neg = !neg
+						}
+						sentinelTests = append(sentinelTests, condBranch{br.iff, neg})
+					}
+				}
+			}
+			tests = len(all) + len(sentinelTests)
+			okTests := len(sentinelTests)
+			for _, stt := range sentinelTests {
+				// other side: index 1 when cond true means "is the sentinel"
+				side := 1
+				if stt.neg {
+					side = 0
+				}
+				blk := stt.iff.Block()
+				target := blk.Succs[side]
+				env := newEnvAt(blk)
+				env.enter(target, blk)
+				self := stt.iff
+				reachedPlainReturn := ""
+				c.explore(target, 0, env, exploreCB{
+					instr: func(in ssa.Instruction, e *pathEnv) bool { return testIfs[in] && in != ssa.Instruction(self) },
+					ret: func(r *ssa.Return, e *pathEnv) {
+						op := retErrOperand(r)
+						if op != nil && (carried[op] || carried[e.resolve(op)]) {
+							return
+						}
+						if op != nil && e.nilnessOf(op) == nonNil {
+							return
+						}
+						if reachedPlainReturn == "" {
+							reachedPlainReturn = c.P.InstrPos(r)
+						}
+					},
+				})
+				if reachedPlainReturn != "" {
+					okTests--
+					if worst == "" {
+						worst = "the error is only compared with one particular error value (" + c.P.InstrPos(stt.iff) + "); every other failure reaches the successful return at " + reachedPlainReturn
+					}
+				}
+			}
 			var hows []string
 			for _, t := range all {
 				succ := 1
